@@ -230,7 +230,9 @@ class Context(DataProxy):
         # TODO: if/when those semantics are implemented, use them instead.
         # NOTE: config value for watchers defaults to an empty list; and we
         # want to clone it to avoid actually mutating the config.
-        watchers = kwargs.pop("watchers", list(self.config.run.watchers))
+        # NOTE: a copy in both cases, so a caller-supplied list isn't mutated
+        # either (it would grow one more responder with every call.)
+        watchers = list(kwargs.pop("watchers", self.config.run.watchers))
         watchers.append(watcher)
         try:
             return runner.run(cmd_str, watchers=watchers, **kwargs)
